@@ -588,6 +588,8 @@ def check_C08(ctx):
     for role in ("enc", "dec"):
         gp, nn, ne = codec_graph(ctx, role, "rate", "_big" if ctx.thorough else "")
         replay(ctx, gp, "edges", acts=["reset", "rehouse"], engines=["naive"])
+        gp, nn, ne = codec_graph(ctx, role, "rs")
+        replay(ctx, gp, "edges", acts=["reset"], engines=["default"])
     code_family(ctx, "c08", what="round at an envelope corner")
 
 
